@@ -95,7 +95,8 @@ def specs(n, rng, **extra):
                 for k in (0, 1)]
     rng.shuffle(directed)
     while len(out) < n:
-        if directed and len(out) < n // 2:
+        is_directed = bool(directed and len(out) < n // 2)
+        if is_directed:
             Gb, used, ig = directed.pop()
         else:
             Gb, used = random_grammar(rng)
@@ -108,7 +109,7 @@ def specs(n, rng, **extra):
             G['term_defs'] += 'IG: %s\n%%ignore IG\n' % IGNORES[ig][0]
         else:
             ig = None
-        pick = [t for t in rng.sample(texts, 30) + (rng.sample(texts_sp, 12) if ig == 'sp' else []) if well_behaved(t, used, ig)]
+        pick = [t for t in (texts if is_directed else rng.sample(texts, 30)) + (rng.sample(texts_sp, 12) if ig == 'sp' else []) if well_behaved(t, used, ig)]
         for mode in ('dynamic', 'dynamic_complete'):
             tx, tk = [], []
             for t in pick:
